@@ -354,6 +354,28 @@ func (b *Board) InCheck(who Color) bool {
 
 var shifts = [2]Square{8, -8}
 
+// epCapturable determines if the en-passant target of b can actually be
+// captured. A target that comes from a FEN is recorded regardless of a possible
+// capture, but only a capturable one is part of the position's identity (its
+// hash), otherwise the same position reached again by moves - where
+// CanEnPassant filters the target - would not count as a repetition.
+func (b *Board) epCapturable() bool {
+	if b.EnPassant == 0 || b.EnPassant.Rank() != SixthRank.FromPerspectiveOf(b.STM) {
+		return false
+	}
+	// CanEnPassant is from the point of view of the side that pushed the pawn,
+	// before the pawn is placed on its destination: being captured, it can't
+	// give check.
+	to := b.EnPassant + shifts[b.STM.Flip()]
+	pushed := (BitBoard(1) << to) & b.Pieces[Pawn]
+	b.Pieces[Pawn] &^= pushed
+	b.STM = b.STM.Flip()
+	res := b.CanEnPassant(to)
+	b.STM = b.STM.Flip()
+	b.Pieces[Pawn] |= pushed
+	return res
+}
+
 // CanEnPassant determines if we need to change the en passant state of the
 // board after a double pawn push.
 //
